@@ -439,14 +439,35 @@ pub trait AllocDyn: Send + Sync {
     fn id_ref_bijection(&self) -> Result<(), String>;
 }
 
-struct AllocW<A: BoundedOgreAllocator<u64>, const N: usize>(A);
-impl<A: BoundedOgreAllocator<u64> + Send + Sync, const N: usize> AllocDyn for AllocW<A, N> {
+/// What the pool holds: the owner's mark, with a destructor that takes time (a scheduling point in the middle): a slot that is
+/// handed to a new owner while its deallocation is still destroying the previous content shows as a mark that changes
+/// under the destructor's feet.
+#[derive(Debug)]
+pub struct DropCell(pub u64);
+impl Drop for DropCell {
+    fn drop(&mut self) {
+        let before = unsafe { std::ptr::read_volatile(&self.0) };
+        crate::ctx::harness_point();
+        let after = unsafe { std::ptr::read_volatile(&self.0) };
+        if before != after {
+            ctx::report(
+                "C13",
+                "slot_handed_out_during_its_deallocation",
+                "alloc_conc/slot_handed_out_during_its_deallocation".into(),
+                format!("while a deallocation was destroying the content of a slot (owner mark {:#x}), another allocation was handed the same slot and wrote {:#x} into it: two owners", before, after),
+            );
+        }
+    }
+}
+
+struct AllocW<A: BoundedOgreAllocator<DropCell>, const N: usize>(A);
+impl<A: BoundedOgreAllocator<DropCell> + Send + Sync, const N: usize> AllocDyn for AllocW<A, N> {
     fn alloc(&self, with_setter: bool, mark: u64) -> Option<u32> {
         if with_setter {
-            self.0.alloc_with(|slot| *slot = mark).map(|(_, id)| id)
+            self.0.alloc_with(|slot| unsafe { std::ptr::write(slot, DropCell(mark)) }).map(|(_, id)| id)
         } else {
             self.0.alloc_ref().map(|(slot, id)| {
-                *slot = mark;
+                unsafe { std::ptr::write(slot, DropCell(mark)) };
                 id
             })
         }
@@ -460,10 +481,10 @@ impl<A: BoundedOgreAllocator<u64> + Send + Sync, const N: usize> AllocDyn for Al
         }
     }
     fn read(&self, id: u32) -> u64 {
-        *self.0.ref_from_id(id)
+        self.0.ref_from_id(id).0
     }
     fn write(&self, id: u32, v: u64) {
-        *self.0.ref_from_id(id) = v;
+        self.0.ref_from_id(id).0 = v;
     }
     fn id_ref_bijection(&self) -> Result<(), String> {
         let mut addrs = vec![];
@@ -473,7 +494,7 @@ impl<A: BoundedOgreAllocator<u64> + Send + Sync, const N: usize> AllocDyn for Al
             if back != id {
                 return Err(format!("id_from_ref(ref_from_id({})) == {}", id, back));
             }
-            addrs.push(r as *const u64 as usize);
+            addrs.push(r as *const DropCell as usize);
         }
         addrs.sort_unstable();
         addrs.dedup();
@@ -486,10 +507,10 @@ impl<A: BoundedOgreAllocator<u64> + Send + Sync, const N: usize> AllocDyn for Al
 
 pub fn make_alloc(atomic: bool, pool: usize) -> Arc<dyn AllocDyn> {
     if atomic {
-        macro_rules! mk { ($n:literal) => { Arc::new(AllocW::<OgreArrayPoolAllocator<u64, AtomicMove<u32, $n>, $n>, $n>(BoundedOgreAllocator::new())) as Arc<dyn AllocDyn> }; }
+        macro_rules! mk { ($n:literal) => { Arc::new(AllocW::<OgreArrayPoolAllocator<DropCell, AtomicMove<u32, $n>, $n>, $n>(BoundedOgreAllocator::new())) as Arc<dyn AllocDyn> }; }
         by_capacity!(pool, mk)
     } else {
-        macro_rules! mk { ($n:literal) => { Arc::new(AllocW::<OgreArrayPoolAllocator<u64, FullSyncMove<u32, $n>, $n>, $n>(BoundedOgreAllocator::new())) as Arc<dyn AllocDyn> }; }
+        macro_rules! mk { ($n:literal) => { Arc::new(AllocW::<OgreArrayPoolAllocator<DropCell, FullSyncMove<u32, $n>, $n>, $n>(BoundedOgreAllocator::new())) as Arc<dyn AllocDyn> }; }
         by_capacity!(pool, mk)
     }
 }
